@@ -38,6 +38,7 @@ FMT = ("per master: aw.valid aw.addr aw.pay w.valid w.pay b.ready ar.valid ar.ad
 
 F_ADDR = "C08-decoder-second-addr-other-slave"
 F_WDATA = "C08-decoder-w-before-aw"
+F_GAP = "C08-arbiter-w-then-idle-gap"
 
 # address maps on a 2-bit byte address, 8-bit data (word address = byte address)
 MAPS = {
@@ -205,9 +206,22 @@ def jobs(tier, seed=0):
                     B("%s%s %dx%d regions/32b outside the hypotheses [%s]" % (T, kind, n, m, mapw),
                       lambda n=n, decs=decs, full=full, mk=mk, **k: mk(n, decs, full=full, data_width=32, address_width=32,
                                                                       domain=False, **k))
+    # one-slave fabrics: data may be handed over before its address is presented (arbiter-level early-data handling)
+    # (one slave owning the whole address space: SoCRegion(0, 4 GiB).decoder is `lambda a: True`)
+    d1 = [DecRegion(0, 1 << 32)]
+    for (n, full) in ((2, False), (3, False), (2, True)):
+        for kind, mk in (("Shared", make_shared), ("Crossbar", make_xbar)):
+            B("%s%s %dx1 early data/32b [%s]" % (X._tag(full), kind, n, d1[0].word()),
+              lambda n=n, full=full, mk=mk, **k: mk(n, d1, full=full, data_width=32, address_width=32, **k))
+    # 64-bit data with 32-bit addresses (byte -> word shift 3), boundary addresses of every region
     d64 = _region_map(rng, 2)
     B("AXILiteShared 2x2 regions/64b [%s]" % " ".join(d.word() for d in d64),
       lambda **k: make_shared(2, d64, data_width=64, address_width=32, **k))
+    d64b = _region_map(rng, 3)
+    B("AXILiteCrossbar 2x3 regions/64b [%s]" % " ".join(d.word() for d in d64b),
+      lambda **k: make_xbar(2, d64b, data_width=64, address_width=32, **k))
+    B("AXIShared 3x3 regions/64b [%s]" % " ".join(d.word() for d in d64b),
+      lambda **k: make_shared(3, d64b, full=True, data_width=64, address_width=32, **k))
     B("AXILitePointToPoint/32b", lambda **k: make_p2p(data_width=32, address_width=32, **k))
     B("AXILiteArbiter 3->1/32b", lambda **k: make_arb(3, data_width=32, address_width=32, **k))
     B("AXIDecoder 1->3 regions/32b", lambda **k: make_dec(_region_map(random.Random(seed + 5), 3), full=True, data_width=32,
@@ -598,10 +612,28 @@ def _probe_wdata(full, kind):
     return fails, msgs[1]
 
 
+def _probe_gap(full, kind):
+    """Lone W beat accepted, one idle cycle, then its AW: the write grant moves in the idle cycle to a requesting
+    second master, whose AW the slave pairs with the first master's data (2 masters x 1 slave)."""
+    import wblib
+    inst = make_shared(2, [wblib.DecAll()], full=full) if kind == "shared" else make_xbar(2, [wblib.DecAll()], full=full)
+    mon = AxiMonitor(inst, hyp=False)
+    last = (1 << mon.wlast_bit) if full else 0
+    w0, w1 = 0xA0 | last, 0xB1 | last
+    tr = [m_part(w=w0) + m_part(aw=(1, 2), w=w1) + s_part(w_ready=1),
+          m_part() + m_part(aw=(1, 2), w=w1) + s_part(aw_ready=1, w_ready=1),
+          m_part(aw=(0, 1)) + m_part(aw=(1, 2), w=w1) + s_part(aw_ready=1, w_ready=1)]
+    msg = None
+    for l in tr:
+        o = impl_step(inst, l)
+        msg = msg or mon.observe(l, o)
+    return bool(msg) and msg.startswith("E:"), msg
+
+
 def probes(ctx):
     out = []
     notes = []
-    for fid, fn in ((F_ADDR, _probe_addr), (F_WDATA, _probe_wdata)):
+    for fid, fn in ((F_ADDR, _probe_addr), (F_WDATA, _probe_wdata), (F_GAP, _probe_gap)):
         fails, whats = [], []
         for full in (False, True):
             for kind in ("dec", "shared"):
@@ -609,7 +641,7 @@ def probes(ctx):
                 for f, msg in (r if isinstance(r, list) else [r]):
                     fails.append(f)
                     if f and not whats:
-                        whats.append("%s %s: %s" % (X._tag(full), kind, msg))
+                        whats.append("%s %s: %s" % (X._tag(full), "crossbar" if (fid == F_GAP and kind == "dec") else kind, msg))
         still = any(fails)
         what = "%d/%d witnesses reproduce; %s" % (sum(fails), len(fails), whats[0] if whats else "none")
         if any(e.get("id") == fid for e in ctx.known):
